@@ -1,9 +1,9 @@
 SPECIFICATION Spec
 CONSTANTS
-  Scripts = {"vplmax@vpl", "vplplain@vpl", "plain", "gsmax@gs", "gsplain@gs"}
+  Scripts = {"gsmax@gs", "gsplain@gs", "plain"}
   Subs = {"ok"}
   MaxLen = 3
-  ClearResets <- CodeClearResets
+  ClearResets <- GsMaximumStays
   Writes <- W
   Reads <- R
   SubWrites <- SW
